@@ -83,6 +83,15 @@ pub const FAULT_LINES: &[(&str, &str)] = &[
     ("bad_start.ampersand", "& Zork"),
     ("bad_start.less", "< 1"),
     // invalid identifier / unterminated token where a statement must start
+    // a keyword missing in front of a pronoun operand
+    ("missing_keyword.at_before_pronoun", "put 5 into Zork it"),
+    ("missing_keyword.at_before_pronoun_let", "let Zork it be 9"),
+    ("missing_keyword.with_before_pronoun", "cut Zork into Quark it"),
+    ("missing_keyword.stray_pronoun_build", "build Zork it up"),
+    ("missing_keyword.stray_pronoun_knock", "knock Zork it down"),
+    ("missing_keyword.stray_pronoun_is", "Zork it is 5"),
+    ("missing_keyword.stray_pronoun_listen", "listen to Zork it"),
+    ("missing_keyword.stray_pronoun_roll", "roll Zork into Quark it"),
     ("invalid_identifier.trailing_digit", "ab1 is 5"),
     ("invalid_identifier.leading_underscore", "_x is 5"),
     ("invalid_identifier.inner_underscore", "x_y is 5"),
@@ -251,6 +260,16 @@ pub fn inject_all(ctx: &mut Ctx, r: &Rendered, rng: &mut Rng, positions: usize, 
                 check(ctx, name, &t, st.end_line, ml);
             }
         }
+    }
+    // B1: a statement on the line of an `else`
+    for (off, line) in &r.else_ends {
+        let (name, extra) = SECOND_STATEMENTS[rng.below(SECOND_STATEMENTS.len())];
+        let mut t = String::with_capacity(text.len() + extra.len());
+        t.push_str(&text[..*off]);
+        t.push_str(extra);
+        t.push_str(&text[*off..]);
+        ctx.count("faults_after_else");
+        check(ctx, &format!("after_else.{}", name), &t, *line, false);
     }
     // B2: a single junk token at the end of a non-poetic statement's own line
     for _ in 0..2 {
